@@ -6,6 +6,7 @@ from hypothesis import strategies as st
 from vlib.runner import Sub, ok, bad, skip
 from vlib import bench
 
+LEVEL = "fault_enumeration"
 RULE = ("real ECCEncoder -> XOR flip mask -> real ECCDecoder evaluated in the simulator, one settle per vector; "
         "small k: ALL data words x ALL 0/1/2-flip patterns (exhaustive); larger k: zero/all-ones/generated words x all single "
         "flips, generated double flips (always including parity-bit and adjacent pairs), linearity sub-check; "
